@@ -24,5 +24,12 @@ if "grammar" not in snap or "--force" in sys.argv:
 for name, fn in (("operand_params", "operand_param_tables"), ("disas_masks", "disas_mask_tables")):
     if hasattr(tables, fn) and (name not in snap or "--force" in sys.argv):
         snap[name] = getattr(tables, fn)()
+if "lift_templates" not in snap or "--force" in sys.argv:
+    # the expression shapes the generator emits for the fields of the lift_* arms (operand variant names blanked)
+    tm = set()
+    for fn_, arms_ in tables.lift_arms().items():
+        for arm_ in arms_.values():
+            tm.update((arm_.get("templates") or {}).values())
+    snap["lift_templates"] = sorted(tm)
 json.dump(snap, open(out, "w"), indent=0, sort_keys=True)
 print("wrote", out, {k: (len(v) if hasattr(v, "__len__") else v) for k, v in snap.items()})
